@@ -35,6 +35,13 @@ def _u64(n):
 def summarize(exe, st, f, bb, callee, args, dest_ty):
     c = re.sub(r"\s+", " ", callee.strip())
 
+    m = re.search(r"^<(\w+) as Default>::default$", c)
+    if m and (m.group(1) in INT_TYPES or m.group(1) == "bool"):
+        if m.group(1) == "bool":
+            return [(st, VBool(z3.BoolVal(False)))]
+        bits, signed = INT_TYPES[m.group(1)]
+        return [(st, VInt(z3.BitVecVal(0, bits), bits, signed))]
+
     # ---- min / max -----------------------------------------------------------
     m = re.search(r"(?:std|core)::cmp::(max|min)::<(\w+)>$", c) or re.search(r"<(\w+) as Ord>::(max|min)$", c)
     if m:
@@ -157,6 +164,32 @@ def summarize(exe, st, f, bb, callee, args, dest_ty):
             exe.write_ref(st, ref, [], VVec(list(vec.elems) + [args[1]], vec.ety), f)
             return [(st, VUnit())]
         return None
+    if re.search(r"Vec::<.*>::insert$", c):
+        ref = args[0]
+        vec = _deref_all(exe, st, ref)
+        idx = _int(exe, st, args[1])
+        k = _concrete(idx.e) if idx is not None else None
+        if isinstance(vec, VVec) and isinstance(ref, VRef) and k is not None:
+            if k > len(vec.elems):
+                exe.oblige(st, z3.BoolVal(False), "panic", f.name, bb, "insertion index out of bounds", tag="bounds")
+                return []
+            el = list(vec.elems)
+            el.insert(k, args[2])
+            exe.write_ref(st, ref, [], VVec(el, vec.ety), f)
+            return [(st, VUnit())]
+        return None
+    if re.search(r"core::slice::<impl \[.*\]>::first_mut$", c) or re.search(r"core::slice::<impl \[.*\]>::first$", c):
+        ref = args[0]
+        v = _deref_all(exe, st, ref)
+        if isinstance(v, VSlice) and isinstance(v.vec, VVec):
+            v = v.vec
+        if isinstance(v, VVec):
+            if not v.elems:
+                return [(st, VAgg("Option::None", "None", []))]
+            return [(st, VAgg("Option::Some", "Some", [VRef("elem", ref, _u64(0))]))]
+        return None
+    if re.search(r"<Vec<.*> as DerefMut>::deref_mut$", c):
+        return [(st, args[0])]
     if re.search(r"Vec::<.*>::len$", c) or re.search(r"core::slice::<impl \[.*\]>::len$", c):
         v = _deref_all(exe, st, args[0])
         if isinstance(v, (VVec, VSlice)):
@@ -244,6 +277,13 @@ def summarize(exe, st, f, bb, callee, args, dest_ty):
     if re.search(r"<std::ops::Range<usize> as IntoIterator>::into_iter$", c):
         return [(st, args[0])]
 
+    r = iterator_summaries(exe, st, f, bb, c, args, dest_ty)
+    if r is not None:
+        return r
+    r = misc_summaries(exe, st, f, bb, c, args, dest_ty)
+    if r is not None:
+        return r
+
     # ---- clone / deref / conversions ---------------------------------------------------------------
     if re.search(r" as Clone>::clone$", c):
         v = args[0]
@@ -255,4 +295,260 @@ def summarize(exe, st, f, bb, callee, args, dest_ty):
         return None
     if re.search(r"std::mem::(drop|forget)::<", c):
         return [(st, VUnit())]
+    return None
+
+
+# ----------------------------------------------------------------------------
+# iterator adaptors over vectors of concrete length
+# ----------------------------------------------------------------------------
+
+def _concrete(e):
+    v = z3.simplify(e)
+    return v.as_long() if z3.is_bv_value(v) else None
+
+
+def materialize(exe, st, it):
+    """All elements the iterator will still yield: [(state, [values])] (closures may fork paths)."""
+    if isinstance(it, VRef):
+        it = exe.deref(st, it)
+    if not isinstance(it, VIter):
+        raise PathEnd("not an iterator: %r" % (it,))
+    if it.kind == "slice":
+        sl = it.src
+        a, b = _concrete(sl.start.e), _concrete(sl.end.e)
+        if a is None or b is None or not isinstance(sl.vec, VVec):
+            raise PathEnd("iterator over a slice with symbolic bounds")
+        return [(st, [VRef("val", el) for el in sl.vec.elems[a + it.pos:b]])]
+    if it.kind == "vec":
+        return [(st, list(it.src.elems[it.pos:]))]
+    if it.kind == "cloned":
+        outs = []
+        for (s2, els) in materialize(exe, st, it.src):
+            outs.append((s2, [_deref_all(exe, s2, e) for e in els]))
+        return outs
+    if it.kind == "enumerate":
+        outs = []
+        for (s2, els) in materialize(exe, st, it.src):
+            outs.append((s2, [VAgg("tuple", None, [_u64(i), e]) for i, e in enumerate(els)]))
+        return outs
+    if it.kind == "map":
+        outs = []
+        for (s2, els) in materialize(exe, st, it.src):
+            partial = [(s2, [])]
+            for e in els:
+                nxt = []
+                for (s3, acc) in partial:
+                    for (s4, v) in exe.call_closure(s3, it.extra, [e]):
+                        nxt.append((s4, acc + [v]))
+                partial = nxt
+            outs.extend(partial)
+        return outs
+    raise PathEnd("materialize %s" % it.kind)
+
+
+def _key_ge(exe, st, a, b):
+    """Lexicographic a >= b for tuples of integers (references are followed)."""
+    a, b = _deref_all(exe, st, a), _deref_all(exe, st, b)
+    if isinstance(a, VInt) and isinstance(b, VInt):
+        return (a.e >= b.e) if a.signed else z3.UGE(a.e, b.e), a.e == b.e
+    if isinstance(a, VAgg) and isinstance(b, VAgg) and len(a.fields) == len(b.fields):
+        ge = z3.BoolVal(True)
+        eq = z3.BoolVal(True)
+        for x, y in reversed(list(zip(a.fields, b.fields))):
+            g, e = _key_ge(exe, st, x, y)
+            gt = z3.And(g, z3.Not(e))
+            ge = z3.Or(gt, z3.And(e, ge))
+            eq = z3.And(e, eq)
+        return ge, eq
+    raise PathEnd("cannot compare keys %r %r" % (a, b))
+
+
+def iterator_summaries(exe, st, f, bb, c, args, dest_ty):
+    # ---- constructors / adaptors ----------------------------------------------------
+    if re.search(r"<std::slice::Iter<'_, .*> as IntoIterator>::into_iter$", c) or re.search(r"<std::iter::\w+<.*> as IntoIterator>::into_iter$", c):
+        return [(st, args[0])]
+    m = re.search(r" as Iterator>::(map|filter|enumerate|cloned|copied)(?:::<.*>)?$", c)
+    if m and isinstance(args[0], VIter):
+        kind = {"copied": "cloned"}.get(m.group(1), m.group(1))
+        return [(st, VIter(kind, args[0], 0, args[1] if len(args) > 1 else None))]
+    if re.search(r"<Vec<.*> as Deref>::deref$", c) or re.search(r"Vec::<.*>::as_slice$", c):
+        v = _deref_all(exe, st, args[0])
+        if isinstance(v, VVec):
+            return [(st, VRef("val", VSlice(v, _u64(0), _u64(len(v.elems)))))]
+        return None
+    if re.search(r"std::vec::from_elem::<.*>$", c):
+        n = _int(exe, st, args[1])
+        k = _concrete(n.e) if n is not None else None
+        if k is None:
+            raise PathEnd("vec![x; n] with symbolic n")
+        return [(st, VVec([args[0]] * k))]
+    # ---- next on slice iterators ----------------------------------------------------
+    if re.search(r"<std::slice::Iter<'_, .*> as Iterator>::next$", c):
+        ref = args[0]
+        it = _deref_all(exe, st, ref)
+        if isinstance(it, VIter) and it.kind == "slice" and isinstance(ref, VRef):
+            sl = it.src
+            a, b = _concrete(sl.start.e), _concrete(sl.end.e)
+            if a is None or b is None:
+                raise PathEnd("next on slice iterator with symbolic bounds")
+            if a + it.pos < b:
+                el = sl.vec.elems[a + it.pos]
+                exe.write_ref(st, ref, [], VIter("slice", sl, it.pos + 1), f)
+                return [(st, VAgg("Option::Some", "Some", [VRef("val", el)]))]
+            return [(st, VAgg("Option::None", "None", []))]
+        return None
+    # ---- terminal operations ---------------------------------------------------------
+    m = re.search(r" as Iterator>::(sum|collect|count|max_by_key|any|all|fold)(?:::<.*>)?$", c)
+    if m and isinstance(_deref_all(exe, st, args[0]), VIter):
+        op = m.group(1)
+        it = _deref_all(exe, st, args[0])
+        if op == "count" and it.kind == "filter":
+            outs = []
+            for (s2, els) in materialize(exe, st, it.src):
+                partial = [(s2, z3.BitVecVal(0, 64))]
+                for e in els:
+                    nxt = []
+                    for (s3, acc) in partial:
+                        for (s4, keep) in exe.call_closure(s3, it.extra, [VRef("val", e)]):
+                            if not isinstance(keep, VBool):
+                                raise PathEnd("filter predicate is not boolean")
+                            nxt.append((s4, acc + z3.If(keep.e, z3.BitVecVal(1, 64), z3.BitVecVal(0, 64))))
+                    partial = nxt
+                outs.extend((s5, VInt(acc, 64, False)) for (s5, acc) in partial)
+            return outs
+        outs = []
+        for (s2, els) in materialize(exe, st, it):
+            if op == "sum":
+                total = None
+                for e in els:
+                    v = _int(exe, s2, e)
+                    if v is None:
+                        raise PathEnd("sum over non-integers")
+                    if total is None:
+                        total = v
+                    else:
+                        if exe.check_debug_overflow:
+                            exe.oblige(s2, add_ok(total.e, v.e, v.signed), "panic", f.name, bb,
+                                       "attempt to add with overflow (iterator sum)", tag="debug-overflow")
+                        total = VInt(total.e + v.e, v.bits, v.signed)
+                if total is None:
+                    bits, signed = INT_TYPES.get(dest_ty or "usize", (64, False))
+                    total = VInt(z3.BitVecVal(0, bits), bits, signed)
+                outs.append((s2, total))
+            elif op == "collect":
+                outs.append((s2, VVec(els)))
+            elif op == "count":
+                outs.append((s2, _u64(len(els))))
+            elif op in ("any", "all"):
+                partial = [(s2, z3.BoolVal(op == "all"))]
+                for e in els:
+                    nxt = []
+                    for (s3, acc) in partial:
+                        for (s4, r) in exe.call_closure(s3, args[1], [e]):
+                            nxt.append((s4, z3.Or(acc, r.e) if op == "any" else z3.And(acc, r.e)))
+                    partial = nxt
+                outs.extend((s5, VBool(acc)) for (s5, acc) in partial)
+            elif op == "fold":
+                partial = [(s2, args[1])]
+                for e in els:
+                    nxt = []
+                    for (s3, acc) in partial:
+                        nxt.extend(exe.call_closure(s3, args[2], [acc, e]))
+                    partial = nxt
+                outs.extend(partial)
+            elif op == "max_by_key":
+                if not els:
+                    outs.append((s2, VAgg("Option::None", "None", [])))
+                    continue
+                partial = [(s2, [])]
+                for e in els:
+                    nxt = []
+                    for (s3, acc) in partial:
+                        for (s4, k) in exe.call_closure(s3, args[1], [VRef("val", e)]):
+                            nxt.append((s4, acc + [k]))
+                    partial = nxt
+                for (s5, keys) in partial:
+                    best, bestk = els[0], keys[0]
+                    for e, k in zip(els[1:], keys[1:]):
+                        ge, _ = _key_ge(exe, s5, k, bestk)  # the last maximum wins
+                        best = ite_value([(ge, e)], best)
+                        bestk = ite_value([(ge, _deref_keys(exe, s5, k))], _deref_keys(exe, s5, bestk))
+                    outs.append((s5, VAgg("Option::Some", "Some", [best])))
+        return outs
+    return None
+
+
+def _deref_keys(exe, st, k):
+    k = _deref_all(exe, st, k)
+    if isinstance(k, VAgg):
+        return VAgg(k.path, k.variant, [_deref_keys(exe, st, x) for x in k.fields], k.names)
+    return k
+
+
+def misc_summaries(exe, st, f, bb, c, args, dest_ty):
+    # ---- `?` on Result -----------------------------------------------------------------
+    if re.search(r"<std::result::Result<.*> as Try>::branch$", c):
+        v = args[0]
+        if isinstance(v, VAgg) and v.variant in ("Ok", "Err"):
+            if v.variant == "Ok":
+                return [(st, VAgg("ControlFlow::Continue", "Continue", [v.fields[0] if v.fields else VUnit()]))]
+            return [(st, VAgg("ControlFlow::Break", "Break", [VAgg("Result::Err", "Err", list(v.fields))]))]
+        if isinstance(v, VOpaque):
+            # unknown outcome: both, as separate paths
+            ok_ty = "?"
+            m = re.match(r"std::result::Result<(.*), [^,]*>$", v.ty.strip())
+            if m:
+                ok_ty = m.group(1)
+            flag = z3.Bool(exe.fresh_name(v.name + ".is_ok"))
+            outs = []
+            s_ok = st.clone()
+            s_ok.pc.append(flag)
+            outs.append((s_ok, VAgg("ControlFlow::Continue", "Continue", [exe.fresh(ok_ty, v.name + ".ok", s_ok)])))
+            s_err = st.clone()
+            s_err.pc.append(z3.Not(flag))
+            outs.append((s_err, VAgg("ControlFlow::Break", "Break", [VAgg("Result::Err", "Err", [VOpaque("?", v.name + ".err")])])))
+            return outs
+        return None
+    if re.search(r" as FromResidual<.*>>::from_residual$", c):
+        v = args[0]
+        if isinstance(v, VAgg) and v.variant == "Err":
+            return [(st, VAgg("Result::Err", "Err", list(v.fields)))]
+        return None
+    # ---- Cell -----------------------------------------------------------------------------
+    if re.search(r"Cell::<.*>::get$", c):
+        v = _deref_all(exe, st, args[0])
+        if isinstance(v, VAgg) and v.path == "Cell":
+            return [(st, v.fields[0])]
+        return None
+    if re.search(r"Cell::<.*>::new$", c):
+        return [(st, VAgg("Cell", None, [args[0]]))]
+    if re.search(r"Box::<\[.*\]>::new_uninit$", c):
+        exe.cell_n += 1
+        cid = "cell%d" % exe.cell_n
+        hole = VAgg("MaybeUninit", None, [VUnit(), VAgg("ManuallyDrop", None, [VAgg("MaybeDangling", None, [VOpaque("?", "uninit")])])])
+        st.cells[cid] = hole
+        exe.global_cells.setdefault(cid, hole)
+        return [(st, VAgg("Box", None, [VAgg("Unique", None, [VRef("cell", cid)])]))]
+    if re.search(r"box_assume_init_into_vec_unsafe::<", c):
+        b = args[0]
+        if isinstance(b, VAgg) and b.path == "Box":
+            inner = exe.deref(st, b.fields[0].fields[0])
+            arr = inner.fields[1].fields[0].fields[0]
+            if isinstance(arr, VVec):
+                return [(st, arr)]
+        return None
+    if re.search(r"Box::<.*>::new$", c):
+        return [(st, VAgg("Box", None, [args[0]]))]
+    # ---- TextRenderer derefs to its top SubRenderer --------------------------------------------
+    if re.search(r"<TextRenderer<\w+> as Deref(Mut)?>::deref(_mut)?$", c):
+        tr = args[0]
+        base = _deref_all(exe, st, tr)
+        if isinstance(base, VOpaque):
+            if "#top" not in base.memo:
+                exe.cell_n += 1
+                cid = "cell%d" % exe.cell_n
+                exe.global_cells[cid] = VOpaque("SubRenderer<D>", base.name + ".top")
+                base.memo["#top"] = VRef("cell", cid)
+            return [(st, base.memo["#top"])]
+        return None
     return None
